@@ -67,6 +67,52 @@ def fuel(fn, n=60000):
         sys.settrace(old)
 
 
+class FuelSession:
+    """Line-count fuel installed once per case (sys.settrace is expensive to switch on and off in 3.12).
+
+    Only frames of the code under test (files below `prefix`) are line-traced; reset() starts a new allowance,
+    and exceeding `limit` lines before the next reset raises OutOfFuel inside the code under test.
+    """
+
+    def __init__(self, limit=40000, prefix=None):
+        self.limit = limit
+        self.prefix = prefix or os.path.join(REPO, "windpyutils")
+        self.n = 0
+        self.old = None
+
+    def _global(self, frame, ev, arg):
+        if frame.f_code.co_filename.startswith(self.prefix):
+            return self._local
+        return None
+
+    def _local(self, frame, ev, arg):
+        if ev == "line":
+            self.n += 1
+            if self.n > self.limit:
+                self.n = 0
+                raise OutOfFuel()
+        return self._local
+
+    def reset(self):
+        self.n = 0
+
+    def __enter__(self):
+        self.old = sys.gettrace()
+        sys.settrace(self._global)
+        return self
+
+    def __exit__(self, *a):
+        sys.settrace(self.old)
+        return False
+
+
+def codes(min_size=0, max_size=40, bits=24):
+    """Cheap Hypothesis source for operation histories: one integer per operation, decoded by the property module
+    (generation costs ~0.1 ms per drawn integer, so one integer per operation keeps generation as cheap as running)."""
+    from hypothesis import strategies as st
+    return st.lists(st.integers(0, 2 ** bits - 1), min_size=min_size, max_size=max_size)
+
+
 def take(it, n):
     """At most n items of an iterator (so an over-long or endless iteration is seen, not waited for)."""
     return list(itertools.islice(iter(it), n))
